@@ -4,7 +4,25 @@ from . import gobuild
 from .common import COQ, REPO, Lock, run
 
 
+def access_spec_v():
+    """spec/access_spec.json (hand-written from the S3 API reference: operation -> action, resource kind, ACL permission)
+    rendered as a Coq table"""
+    import json
+    from .common import VERIF, coq_str, coq_list, coq_bool, write_if_changed
+    spec = json.load(open(os.path.join(VERIF, "spec", "access_spec.json")))
+    perm = {"READ": "Read", "WRITE": "Write", "READ_ACP": "ReadAcp", "WRITE_ACP": "WriteAcp"}
+    rows = ["  {| s_backend := %s; s_actions := %s; s_perm := %s; s_object := %s; s_mutating := %s; s_check := %s |}" % (
+        coq_str(e["backend"]), coq_list([coq_str(a) for a in e["actions"]]), coq_str(perm[e["perm"]]), coq_bool(e["object"]),
+        coq_bool(e["mutating"]), coq_str(e["check"])) for e in spec]
+    text = ("(* GENERATED from spec/access_spec.json (the hand-written access Spec). Do not edit. *)\n"
+            "From Coq Require Import String List Bool.\nImport ListNotations.\nOpen Scope string_scope.\n\n"
+            "Record aspec := { s_backend : string; s_actions : list string; s_perm : string; s_object : bool; s_mutating : bool; s_check : string }.\n\n"
+            "Definition access_spec : list aspec := [\n" + ";\n".join(rows) + "\n].\n")
+    write_if_changed(os.path.join(COQ, "Gen", "AccessSpec.v"), text)
+
+
 def regenerate():
     tool = gobuild.build_tool("gentab")
     with Lock("coq"):
         run([tool, REPO, os.path.join(COQ, "Gen")], timeout=120, quiet=True)
+        access_spec_v()
